@@ -192,6 +192,14 @@ def _gen_world_once(rng, k):
                 shape = rng.choice(K['shapes'])
                 inp.update({'shape': shape, 'units': _pick_unit(rng, K), 'src': None, 'idx': None, 'flat': False,
                             'via': 'auto', 'val': [dyadic(rng, -4, 4, 2) for _ in range(int(np.prod(shape)))]})
+                if K.get('default_units') and inp['units'] in list(LEN) + list(TIME) and rng.random() < K['default_units']:
+                    # the group-level default (set_input_defaults) gives the automatic source other units than
+                    # the input's own -- only for engines that compare recorded with reloaded values (no
+                    # reference model reads this)
+                    # (only defaults that make the numbers smaller in the input's own units: the worlds are
+                    # validated for the magnitudes of the plan)
+                    cand = [u for u in (LEN if inp['units'] in LEN else TIME) if conv(u, inp['units'])[0] <= 1.0]
+                    inp['default_units'] = rng.choice(cand)
             else:
                 sc, so = rng.choice(prev_outs)
                 if j > 0 and comp['ins'] and comp['ins'][-1].get('src') and rng.random() < K.get('same_src', 0.0):
@@ -418,6 +426,10 @@ def _fill_math(rng, comp, K):
             (comp['kind'] == 'aff' or K.get('approx_imp')):
         comp['approx'] = {'method': rng.choice(['fd', 'fd', 'cs']), 'form': rng.choice(['forward', 'backward', 'central']),
                           'step': rng.choice([1e-6, 1e-5, 1e-4]), 'step_calc': rng.choice(['abs', 'rel_avg', 'rel_element'])}
+        if len(comp['ins']) >= 2 and rng.random() < 0.3:
+            # different approximation methods for different inputs of one component
+            comp['approx']['method'] = 'fd'
+            comp['approx']['methods'] = {i['name']: rng.choice(['fd', 'cs']) for i in comp['ins']}
 
 
 def children(world, g):
